@@ -84,3 +84,29 @@ def gen_world(run_seed, codec, knobs=None, features=None):
         return spec, text, None
 
     return spec, text, outcome[1]
+
+
+def corpus_world(rng, patterns=('hot*.asn', 'wire*.asn')):
+    """A hand-written module of /verif/corpus for the wire engines (shapes
+    the random generator rarely hits).  Returns (spec, text, parsed); spec
+    is a placeholder, the text travels in the case."""
+
+    import glob
+    import os
+
+    from . import VERIF
+
+    paths = sorted(path for pattern in patterns
+                   for path in glob.glob(os.path.join(VERIF, 'corpus',
+                                                      pattern)))
+
+    if not paths:
+        return None
+
+    with open(rng.choice(paths)) as fin:
+        text = fin.read()
+
+    outcome = parse(text)
+
+    return ({'modules': [], 'corpus': True}, text,
+            outcome[1] if outcome[0] == 'ok' else None)
